@@ -528,6 +528,11 @@ int world_feed(world_t *w, int side, const unsigned char *p, int len)
                 world_tracef(w, "%d:app %u %016llx c%d\n", side, ptlen,
                     (unsigned long long) fnv1a(pt, ptlen, FNV0), comp);
                 buf_add(&s->delivered, pt, ptlen);
+                if (s->n_deliveries < 64)
+                {
+                    s->dlog[s->n_deliveries].len = ptlen;
+                    s->dlog[s->n_deliveries].hash = fnv1a(pt, ptlen, FNV0);
+                }
                 s->n_deliveries++;
                 if (comp)
                 {
